@@ -20,6 +20,8 @@ FT = {
     "f64": ("f64", ["0.5f64", "-1.0f64"], "noeq"),
     # inherent methods named like the trait methods, behaving differently: only code that bypasses the traits reaches them
     "sh": ("::dxrt::Sh", ["::dxrt::Sh(1)", "::dxrt::Sh(4)"], "all"),
+    # every comparison this type takes part in is traced: which fields are looked at, and where a comparison stops
+    "cnt": ("::dxrt::Cnt", ["::dxrt::Cnt(1)", "::dxrt::Cnt(2)"], "all"),
     "T": ("T", ["1u8", "3u8"], "all"),
     "optT": ("::core::option::Option<T>", ["::core::option::Option::None", "::core::option::Option::Some(2u8)"], "all"),
     "arr": ("[u8; N]", ["[0u8, 0u8]", "[1u8, 2u8]"], "all"),
@@ -43,7 +45,7 @@ def gen_spec(rng):
     traits = close(rng.sample(ALL8, rng.randint(1, 8)))
     noeq_ok = not any(t in traits for t in ("Eq", "Ord", "Hash"))
     raw = rng.random() < 0.15
-    pool = ["u8", "i32", "string", "opt", "vec", "pair", "sh"] + (["f64"] if noeq_ok else [])
+    pool = ["u8", "i32", "string", "opt", "vec", "pair", "sh", "cnt", "cnt"] + (["f64"] if noeq_ok else [])
     gen_kind = rng.choice(["none", "none", "T", "T", "N", "a", "TNa"])
     if "T" in gen_kind:
         pool += ["T", "optT"]
@@ -240,6 +242,12 @@ def obs_code(spec, mod):
         out.append(f'{{ let mut s = ::std::string::String::new(); for a in &vals {{ for b in &vals {{ s.push(::dxrt::ord_c(::core::cmp::Ord::cmp({ref}, {refb}))); }} }} ::dxrt::ev!("mat", "m" => "{mod}", "op" => "cmp", "v" => s); }}')
     if "Hash" in tr:
         out.append(f'{{ let mut l = ::std::vec::Vec::new(); for a in &vals {{ l.push(::dxrt::RecHasher::of({ref})); }} ::dxrt::ev!("feeds", "m" => "{mod}", "l" => l); }}')
+    if any(f == "cnt" for v in spec["variants"] for f in v["fields"]):
+        # the calls a comparison makes on its fields (traced by Cnt), per pair of values
+        # (not for `==`: the std derive compares scalar fields first, an optimisation derive_ex need not copy)
+        for t, call in (("PartialOrd", f"::core::cmp::PartialOrd::partial_cmp({ref}, {refb})"), ("Ord", f"::core::cmp::Ord::cmp({ref}, {refb})")):
+            if t in tr:
+                out.append(f'{{ let mut l: ::std::vec::Vec<::std::string::String> = ::std::vec::Vec::new(); for a in &vals {{ for b in &vals {{ let _ = ::dxrt::take_trace(); let _ = {call}; l.push(::dxrt::take_trace().join(",")); }} }} ::dxrt::ev!("calls", "m" => "{mod}", "op" => "{t}", "l" => l); }}')
     if "T" in spec["gen"] and spec["gen"] != "U":
         # to which instantiations does each impl apply?  T := a float (no Eq / Ord / Hash), T := a PartialEq-only Copy type
         paths = {"Clone": "::core::clone::Clone", "Debug": "::core::fmt::Debug", "Default": "::core::default::Default",
@@ -297,6 +305,10 @@ def check_case(spec, events):
         elif k == "mat":
             if ed["v"] != es["v"]:
                 bad.append((f"matrix-{key[2]}", es["v"], ed["v"]))
+        elif k == "calls":
+            if ed["l"] != es["l"]:
+                at = next(i for i, (x, y) in enumerate(zip(ed["l"], es["l"])) if x != y)
+                bad.append((f"field-comparisons-made-{key[2]}", f"pair {at}: {es['l'][at]}", ed["l"][at]))
         elif k == "appl":
             if ed["v"] != es["v"]:
                 bad.append(("impl-applies-to-other-instantiations", es["v"], ed["v"]))
